@@ -243,6 +243,42 @@ def deep_world(arg):
     return stats, bad, ('deep',) + tuple(arg)
 
 
+def big_world(arg):
+    """a wallet holding more than a thousand unspent outputs (one key or two): single attempts that need few, many, all but
+    one and all of them - every size-dependent branch of the collection loop is entered"""
+    pattern, N, two_keys, korder = arg
+    from skepticoin.coinstate import CoinState
+    ledger.setup()
+    seams.deterministic_wallet_signing()
+    vals = {'5-ones-4': (5,) + (1,) * (N - 2) + (4,), 'ones': (1,) * N, 'ones-7': (1,) * (N - 1) + (7,),
+            '9-ones': (9,) + (1,) * (N - 1)}[pattern]
+    dist = (vals[:N // 2], vals[N // 2:]) if two_keys else (vals, ())
+    root, n1 = make_world(dist, False, False, 'asc')
+    cs0 = CoinState.empty().add_block_no_validation(root.block).add_block(n1.block, n1.ts)
+    keys = [K[0], K[1]] if korder == 0 else [K[1], K[0]]
+    total = sum(vals)
+    stats = {'states': 1, 'transitions': 0, 'success': 0, 'insufficient': 0, 'confirmed': 0}
+    bad = []
+    attempts = [(1, 0), (vals[0] + 1, 0), (100, 1), (255, 0), (256, 2), (N - 100, 0), (N - 1, 0), (N, 2), (N + 3, 2), (total - 2, 1),
+                (total - 1, 0), (total, 0), (total + 1, 0)]
+    for amount, fee in attempts:
+        stats['transitions'] += 1
+        viol, tx, after = check_attempt(cs0, n1, keys, frozenset(), frozenset(), amount, fee)
+        stats['success' if tx is not None else 'insufficient'] += 1
+        for key, what in viol:
+            if len(bad) < 6:
+                bad.append((key, what, (('spend', amount, fee),)))
+    return stats, bad, ('big',) + tuple(arg)
+
+
+def big_worlds(ctx):
+    N = 1100
+    out = [('5-ones-4', N, False, 0), ('ones-7', N, False, 0), ('9-ones', N, True, 0)]
+    if not ctx.quick:
+        out += [('ones', N, False, 0), ('5-ones-4', N, True, 1), ('5-ones-4', 2100, False, 0)]
+    return out
+
+
 def deep_worlds(ctx):
     dists = [((1,), (2, 5)), ((5,), (1, 2)), ((1, 2), (5,)), ((2, 5), (1,)), ((2,), (1,)), ((1,), (1, 1))]
     if not ctx.quick:
@@ -256,6 +292,8 @@ def deep_worlds(ctx):
 
 
 def _any(arg):
+    if arg[0] == 'big':
+        return big_world(arg[1])
     return deep_world(arg[1]) if arg[0] == 'deep' else explore_world(arg[1])
 
 
@@ -284,12 +322,17 @@ def run(ctx):
         import random
         random.Random(ctx.seed).shuffle(ws)
     dws = deep_worlds(ctx)
-    res = ctx.pmap(_any, [('deep', w) for w in dws] + [('flat', w) for w in ws])
+    bws = big_worlds(ctx)
+    res = ctx.pmap(_any, [('big', w) for w in bws] + [('deep', w) for w in dws] + [('flat', w) for w in ws])
     tot = {}
     for st, bad, arg in res:
         for k, v in st.items():
             tot[k] = tot.get(k, 0) + v
         for key, what, tr in bad:
+            if arg[0] == 'big':
+                ctx.violation(key, "%s; wallet with %d unspent outputs (pattern %s, %s), attempt %s" % (
+                    what, arg[2], arg[1], 'two keys' if arg[3] else 'one key', list(tr)), {'big': list(arg[1:])})
+                continue
             if arg[0] == 'deep':
                 ctx.violation(key, "%s; world %s (longer history, delayed confirmations), operations %s" % (what, arg[1:4], list(tr)),
                               {'deep': [[list(arg[1][0]), list(arg[1][1])], arg[2], arg[3], arg[4]], 'trace': [list(t) for t in tr]})
@@ -301,17 +344,20 @@ def run(ctx):
         'samples': [{'world': ws[0][:5], 'attempts_offered_at_every_state': attempt_alphabet(sum(ws[0][0][0]) + sum(ws[0][0][1]), False)[:6]},
                     {'world_with_delayed_confirmations': dws[0][:3], 'operations': ['spend(smallest output)', 'spend(everything available)', 'confirm(0)']}],
         'worlds': len(ws), 'successful_spends': tot['success'], 'insufficient_reports': tot['insufficient'],
-        'confirmations': tot['confirmed'], 'reorganisations': tot.get('reorganisations', 0), 'exhaustive': True,
+        'big_wallets': [list(w) for w in bws], 'confirmations': tot['confirmed'], 'reorganisations': tot.get('reorganisations', 0), 'exhaustive': True,
         'rule': "worlds = every assignment of <= %d outputs of value 1/2/5 to two wallet keys x foreign output x 10-coin reward "
                 "x output order x key-dictionary order; per world BFS over (head, record of used outputs, outputs used by "
                 "successful spends) with every (amount 1..total+1, fee 0..2) at every state, attempts per path <= %d, "
                 "confirmations <= %d; plus %d worlds explored to %d operations with a reduced amount alphabet (smallest / largest "
                 "output, everything available, one less), confirmation of ANY still unconfirmed earlier spend as a separate "
-                "operation, and one reorganisation onto a branch without the confirmed spends" % (3 if ctx.quick else 4, ws[0][5], ws[0][6], len(dws), dws[0][3]),
+                "operation, and one reorganisation onto a branch without the confirmed spends; plus wallets holding 1100 outputs (13 attempts each: few, 255/256, all but one, all)" % (3 if ctx.quick else 4, ws[0][5], ws[0][6], len(dws), dws[0][3]),
     })
 
 
 def replay(data, ctx):
+    if 'big' in data:
+        st, bad, _ = big_world(tuple(data['big']))
+        return [(k, what) for k, what, tr in bad]
     if 'deep' in data:
         d = data['deep']
         st, bad, _ = deep_world(((tuple(d[0][0]), tuple(d[0][1])), d[1], d[2], d[3]))
